@@ -123,8 +123,8 @@ def run(repo, rep, tier):
     why = _lookup_key_problem(repo, lk)
     rep.ob("C01.R2", lk, "lookup_key allocates a fresh key per distinct value and indexes it both ways", why is None, why or "", key="C01.R2@strings:lookup_key")
     vk = repo.func("model.py", "DataLists.value_key")
-    ok = U(vk).replace(" ", "").endswith("returnvalue") and "repr(value)" in U(vk)
-    rep.ob("C01.R2", vk, "distinct strings have distinct value keys (identity for plain values)", ok, "", key="C01.R2@strings:value_key")
+    bad = _value_key_problem(vk)
+    rep.ob("C01.R2", vk, "distinct strings have distinct value keys (identity for plain values)", bad is None, bad or "", key="C01.R2@strings:value_key")
 
     # ---- R3 exact decimal codec
     for fn in ("_pack_decimal128", "_unpack_decimal128"):
@@ -639,10 +639,47 @@ VARIANTS = [
       "            key = self._datalists[table_id][\"next_key\"]\n", "C01.R2"),
     M("lookup-key-entry-without-value", "model.py", 'attrs = {"key": key, self._value_attr: value, "refcount": 1}', 'attrs = {"key": key, "refcount": 1}', "C01.R2"),
     M("lookup-key-by-value-keyed-by-key", "model.py", 'self._datalists[table_id]["by_value"][value_key] = key', 'self._datalists[table_id]["by_value"][key] = value_key', "C01.R2"),
+    M("value-key-stripped-text", "model.py", '            return repr(value)\n        return value\n',
+      '            return repr(value)\n        return value.strip() if isinstance(value, str) else value\n', "C01.R2"),
+    M("value-key-casefolded-branch", "model.py", '            return repr(value)\n        return value\n',
+      '            return repr(value)\n        if isinstance(value, str):\n            return value.casefold()\n        return value\n', "C01.R2"),
+    T("value-key-conditional-expression", "model.py", '        if hasattr(value, "DESCRIPTOR"):\n            return repr(value)\n        return value\n',
+      '        return repr(value) if hasattr(value, "DESCRIPTOR") else value\n'),
     T("from-value-reordered-safe", "cell.py", "        if isinstance(value, str):\n            cell = TextCell(row, col, value)\n        elif isinstance(value, bool):\n            cell = BoolCell(row, col, value)\n",
       "        if isinstance(value, bool):\n            cell = BoolCell(row, col, value)\n        elif isinstance(value, str):\n            cell = TextCell(row, col, value)\n"),
 ]
 VARIANTS = [v for v in VARIANTS if v.expect != "ANALYSIS-SKIP"]
+
+
+def _value_key_problem(vk):
+    """Every value returned by ``value_key`` is the value itself, ``repr(value)`` (messages), or a tuple display that
+    holds the value itself: anything else (a normalised, folded, truncated or hashed text) may give two different
+    strings one key, and the second string is then saved as the first.  Returns a reason, or None."""
+    param = vk.args.args[-1].arg if vk.args.args else "value"
+
+    def leaves(e):
+        if isinstance(e, ast.IfExp):
+            return leaves(e.body) + leaves(e.orelse)
+        return [e]
+
+    def injective(e):
+        if isinstance(e, ast.Name) and e.id == param:
+            return True
+        if isinstance(e, ast.Call) and isinstance(e.func, ast.Name) and e.func.id == "repr" and len(e.args) == 1 and not e.keywords and injective(e.args[0]):
+            return True
+        if isinstance(e, ast.Tuple) and any(isinstance(x, ast.Name) and x.id == param for x in e.elts):
+            return True
+        return False
+
+    rebinds = [n for n in ast.walk(vk) if isinstance(n, ast.Name) and n.id == param and isinstance(n.ctx, ast.Store)]
+    if rebinds:
+        return f"`{param}` is rebound at line {rebinds[0].lineno} before it is used as the key"
+    for r in ast.walk(vk):
+        if isinstance(r, ast.Return):
+            for leaf in leaves(r.value) if r.value is not None else [None]:
+                if leaf is None or not injective(leaf):
+                    return f"line {r.lineno} returns `{U(leaf) if leaf is not None else None}`, which is not the value itself: two different values may share a key and the second is saved as the first"
+    return None
 
 
 def _lookup_key_problem(repo, lk):
